@@ -156,7 +156,7 @@ func (eval Evaluator) MultiplyByDiagMatrix(ctIn *rlwe.Ciphertext, matrix LinearT
 	ringQ := ringQP.RingQ
 	ringP := ringQP.RingP
 
-	opOut.Resize(opOut.Degree(), levelQ)
+	opOut.Resize(ctIn.Degree(), levelQ)
 
 	QiOverF := params.QiOverflowMargin(levelQ)
 	PiOverF := params.PiOverflowMargin(levelP)
@@ -290,7 +290,7 @@ func (eval Evaluator) MultiplyByDiagMatrixBSGS(ctIn *rlwe.Ciphertext, matrix Lin
 	ringQ := ringQP.RingQ
 	ringP := ringQP.RingP
 
-	opOut.Resize(opOut.Degree(), levelQ)
+	opOut.Resize(ctIn.Degree(), levelQ)
 
 	QiOverF := params.QiOverflowMargin(levelQ) >> 1
 	PiOverF := params.PiOverflowMargin(levelP) >> 1
